@@ -233,7 +233,7 @@ for kt in (KeyType.AES, KeyType.DES3):
 
 # ------------------------------------------------------------------ 3. process environment restored after a module is loaded
 for i in range(30 * SCALE):
-    base = {f"VERIF_E{j}": f"v{R.randrange(100)}" for j in range(R.randrange(0, 4))}
+    base = {f"VERIF_E{j}": R.choice([f"v{R.randrange(100)}", f"v{R.randrange(100)}", "", " ", "0"]) for j in range(R.randrange(0, 5))}
     upd = {}
     for j in range(R.randrange(0, 4)):
         upd[R.choice([f"VERIF_E{R.randrange(0, 5)}", f"VERIF_N{R.randrange(3)}"])] = R.choice(["x", "", "long value with spaces", "5"])
